@@ -184,6 +184,8 @@ def _worker_init(modname: str) -> None:
     _MODULE = _load_module(modname)
     if hasattr(_MODULE, "worker_init"):
         _MODULE.worker_init()
+    if hasattr(_MODULE, "warm_up"):
+        _MODULE.warm_up()  # (only the module being checked: e.g. C05 uses C10's worker_init without its warm-up)
 
 
 def _alarm(_sig, _frm):
@@ -320,6 +322,8 @@ def _fresh_main() -> None:
     mod = _load_module(modname)
     if hasattr(mod, "worker_init"):
         mod.worker_init()
+    if hasattr(mod, "warm_up"):
+        mod.warm_up()
     try:
         res = run_one(mod, plan)
     finally:
@@ -573,6 +577,8 @@ def main(modname: str, argv: list[str]) -> int:
         shrink_budget = {"quick": 60, "thorough": 300}[args.tier]
         if hasattr(mod, "worker_init"):
             mod.worker_init()
+        if hasattr(mod, "warm_up"):
+            mod.warm_up()
         try:
             ordered = sorted(classes.items(), key=lambda kv: (kv[1][0][0], kv[1][0][1]))
             if len(ordered) > 6:
